@@ -75,6 +75,7 @@ def gen_config(r, index=None, subset_cycle=False, force_mode=None):
             'folders': folder_layout(r, outputs),
             'junk': r.random() < 0.15,
             'lmdb': mode == 'ocr' and 'lines' in outputs and r.random() < 0.25,
+            'delete_output_before_resume': {'page': r.randrange(8), 'kind': r.randrange(4)} if r.random() < 0.08 else None,
             'odd_out_name': r.random() < 0.1,          # output root with glob / regex metacharacters in its name
             'input_mtime': r.choice([None, None, None, None, 'future', 'touch_before_resume']),
             'late_pages': [pages[-1]['id']] if (len(pages) >= 2 and r.random() < 0.1 and not pages[-1].get('no_xml')) else [],
@@ -233,6 +234,20 @@ def check_history(world, tree, runs, gt_snap, exp, label):
             late = set()
         if role == 'resume' and plan.get('input_mtime') == 'touch_before_resume':
             touch_inputs(world, 0.0)
+        if role == 'resume' and plan.get('delete_output_before_resume'):
+            # the user removes one output of a finished page between the runs: the page has to be redone
+            sel = plan['delete_output_before_resume']
+            now = snapshot(out)
+            done = [p for p in ids if is_complete(exp[p], now)]
+            if done:
+                victim = done[sel['page'] % len(done)]
+                kinds = [k for k in ('xml', 'render', 'logits', 'alto') if k in exp[victim] and exp[victim][k]]
+                if kinds:
+                    f = exp[victim][kinds[sel['kind'] % len(kinds)]][0]
+                    os.remove(os.path.join(out, f))
+                    res.fault('output_of_finished_page_deleted_by_user')
+                    log_msg = [victim, f]
+                    world.log.add('sim', 'user-deletes-output', log_msg)
         run_kinds = spec.get('outputs')
         if run_kinds is not None:
             res.probe('earlier_run_requested_fewer_outputs')
